@@ -968,6 +968,7 @@ func ufWriterOf(w io.Writer) *bufio.Writer { return nil }
 //@   ensures  [lineerr] err == nil ==> forall(old(linePos(ufReaderOf(io.Reader(conn)))), linePos(ufReaderOf(io.Reader(conn))), func(i int) bool { return ufLineErr(ufReaderOf(io.Reader(conn)), i) == nil })
 //@   ensures  [ok101]   err == nil ==> outCalls(wrOf(ufWriterOf(io.Writer(conn)))) == old(outCalls(wrOf(ufWriterOf(io.Writer(conn)))))+1 && outByte(wrOf(ufWriterOf(io.Writer(conn))), old(outLen(wrOf(ufWriterOf(io.Writer(conn)))))) == 1
 //@   ensures  [once]    outCalls(wrOf(ufWriterOf(io.Writer(conn)))) <= old(outCalls(wrOf(ufWriterOf(io.Writer(conn)))))+1
+//@   ensures  [errwritten] err != nil && linePos(ufReaderOf(io.Reader(conn))) >= old(linePos(ufReaderOf(io.Reader(conn))))+2 && forall(old(linePos(ufReaderOf(io.Reader(conn)))), linePos(ufReaderOf(io.Reader(conn))), func(i int) bool { return ufLineErr(ufReaderOf(io.Reader(conn)), i) == nil }) ==> outCalls(wrOf(ufWriterOf(io.Writer(conn)))) == old(outCalls(wrOf(ufWriterOf(io.Writer(conn)))))+1
 //@   ensures  [rejcode] outCalls(wrOf(ufWriterOf(io.Writer(conn)))) == old(outCalls(wrOf(ufWriterOf(io.Writer(conn)))))+1 && outByte(wrOf(ufWriterOf(io.Writer(conn))), old(outLen(wrOf(ufWriterOf(io.Writer(conn)))))) == 2 && dynTypeIs(err, "*ws.ConnectionRejectedError") && err.(*ConnectionRejectedError).code != 0 ==> outByte(wrOf(ufWriterOf(io.Writer(conn))), old(outLen(wrOf(ufWriterOf(io.Writer(conn)))))+1) == byte(err.(*ConnectionRejectedError).code>>8) && outByte(wrOf(ufWriterOf(io.Writer(conn))), old(outLen(wrOf(ufWriterOf(io.Writer(conn)))))+2) == byte(err.(*ConnectionRejectedError).code)
 //@   ensures  [plain500] outCalls(wrOf(ufWriterOf(io.Writer(conn)))) == old(outCalls(wrOf(ufWriterOf(io.Writer(conn)))))+1 && outByte(wrOf(ufWriterOf(io.Writer(conn))), old(outLen(wrOf(ufWriterOf(io.Writer(conn)))))) == 2 && !dynTypeIs(err, "*ws.ConnectionRejectedError") ==> outByte(wrOf(ufWriterOf(io.Writer(conn))), old(outLen(wrOf(ufWriterOf(io.Writer(conn)))))+1) == 0x01 && outByte(wrOf(ufWriterOf(io.Writer(conn))), old(outLen(wrOf(ufWriterOf(io.Writer(conn)))))+2) == 0xf4
 //@   ensures  [errresp] err != nil && outCalls(wrOf(ufWriterOf(io.Writer(conn)))) == old(outCalls(wrOf(ufWriterOf(io.Writer(conn)))))+1 ==> outByte(wrOf(ufWriterOf(io.Writer(conn))), old(outLen(wrOf(ufWriterOf(io.Writer(conn)))))) == 2 || outByte(wrOf(ufWriterOf(io.Writer(conn))), old(outLen(wrOf(ufWriterOf(io.Writer(conn)))))) == 1
